@@ -110,3 +110,142 @@ def nontrivial_default(case, impl):
         return False
     v = impl[3:]
     return v not in ("inf", "0", "[0]", "False", "x", "", "[0,0]", "1", "[1]")
+
+
+# ---- hash transcripts ------------------------------------------------------------------------
+def transcript_token(rh):
+    """`T<ds>:<bs>:<in>=<out>,…` — the hash oracle the driver evaluates the model with"""
+    seen = {}
+    for i, o in rh.record:
+        seen[bytes(i)] = bytes(o)
+    return f"T{rh.digest_size}:{rh.block_size}:" + ",".join(k.hex() + "=" + v.hex() for k, v in seen.items())
+
+
+def hashed_case(op, hname, run_impl, args_after_hash, tags=()):
+    """run the REAL function now with a recording wrapper around hashlib.<hname>; ship the transcript to
+    the model.  `run_impl(rh)` returns the canonical output string (or raises)."""
+    import pyexec
+    rh = pyexec.RecordingHash(hname)
+    try:
+        out = "ok\t" + run_impl(rh)
+    except RecursionError:
+        out = "err\tRecursionError"
+    except Exception as e:  # noqa: BLE001
+        out = "err\t" + pyexec.err_kind(e)
+    tok = transcript_token(rh)
+    return Case(op, [hname] + [str(a) for a in args_after_hash], impl_out=out,
+                driver_args=[tok] + [str(a) for a in args_after_hash], tags=tags)
+
+
+# ---- points of the four curve modules as protocol tokens ----------------------------------------
+def fp_tok(x):
+    return tl(x.coeffs())
+
+
+def aff_tokens(P):
+    """oracle affine point -> 2 tokens for the reference modules"""
+    if P is None:
+        return ["inf", "inf"]
+    return [fp_tok(P[0]), fp_tok(P[1])]
+
+
+def proj_tokens(P, scale):
+    """oracle affine point -> 3 tokens (x*s, y*s, s) for the optimized modules; `scale` is an oracle field element"""
+    if P is None:
+        return [fp_tok(scale), fp_tok(scale.like(1)), fp_tok(scale.like(0))]
+    return [fp_tok(P[0] * scale), fp_tok(P[1] * scale), fp_tok(scale)]
+
+
+def rand_scale(rng, like):
+    """a random non-zero field element of the same kind as `like`"""
+    while True:
+        if isinstance(like, O.Fp2):
+            s = O.Fp2(rng.randrange(like.p), rng.randrange(like.p), like.p)
+        else:
+            s = O.Fp(rng.randrange(like.p), like.p)
+        if not s.is_zero():
+            return s
+
+
+# ---- the four curve modules × three groups --------------------------------------------------------
+class Grp:
+    """one (module, group): field spec token, oracle generator, curve coefficient b, subgroup order"""
+
+    def __init__(self, mod, grp, spec, gen, b, order, mk):
+        self.mod, self.grp, self.spec, self.gen, self.b, self.order, self.mk = mod, grp, spec, gen, b, order, mk
+        self.opt = mod.startswith("Opt")
+        self.curve = "bls" if mod.endswith("Bls") else "bn"
+
+    def name(self):
+        return f"{self.mod}.{self.grp}"
+
+    def pt_tokens(self, P, rng=None, scale=None):
+        if not self.opt:
+            return aff_tokens(P)
+        if scale is None:
+            scale = rand_scale(rng, self.b) if rng is not None and not isinstance(self.b, O.Fpk) else self.b.like(1)
+        return proj_tokens(P, scale)
+
+    def rand_point(self, rng):
+        """random point of the full curve group (may lie outside the prime-order subgroup)"""
+        if self.grp == "G12":
+            return None
+        while True:
+            x = self.mk([rng.randrange(self.b.p) for _ in range(len(self.b.coeffs()))])
+            y = (x * x * x + self.b).sqrt()
+            if y is not None:
+                return (x, y if rng.random() < 0.5 else -y)
+
+
+_GROUPS = None
+
+
+def curve_groups():
+    global _GROUPS
+    if _GROUPS is not None:
+        return _GROUPS
+    import importlib
+    out = []
+    for curve, p, r, mc12 in (("bls", O.BLS_P, O.BLS_R, [2, 0, 0, 0, 0, 0, -2, 0, 0, 0, 0, 0]),
+                              ("bn", O.BN_P, O.BN_R, [82, 0, 0, 0, 0, 0, -18, 0, 0, 0, 0, 0])):
+        libname = "bls12_381" if curve == "bls" else "bn128"
+        ref = importlib.import_module("py_ecc." + libname)
+        mk1 = lambda l, p=p: O.Fp(l[0], p)  # noqa: E731
+        mk2 = lambda l, p=p: O.Fp2(l[0], l[1], p)  # noqa: E731
+        mk12 = lambda l, p=p, mc12=mc12: O.Fpk(l, p, mc12)  # noqa: E731
+        co = lambda x: [int(c) for c in x.coeffs] if hasattr(x, "coeffs") else [int(x.n)]  # noqa: E731
+        g1 = (mk1(co(ref.G1[0])), mk1(co(ref.G1[1])))
+        g2 = (mk2(co(ref.G2[0])), mk2(co(ref.G2[1])))
+        t = ref.twist(ref.G2)
+        g12 = (mk12(co(t[0])), mk12(co(t[1])))
+        b1_, b2_, b12_ = mk1(co(ref.b)), mk2(co(ref.b2)), mk12(co(ref.b12))
+        for v in ("Ref", "Opt"):
+            mod = v + ("Bls" if curve == "bls" else "Bn")
+            vv = v.lower()
+            out.append(Grp(mod, "G1", f"q:{p}:{vv}", g1, b1_, r, mk1))
+            out.append(Grp(mod, "G2", espec(vv, p, MC2), g2, b2_, r, mk2))
+            out.append(Grp(mod, "G12", espec(vv, p, tl(mc12)), g12, b12_, r, mk12))
+    _GROUPS = out
+    return out
+
+
+def cast12(P, g12):
+    """embed an Fp point into E(Fp12) (cast_point_to_fq12)"""
+    if P is None:
+        return None
+    return (g12.mk([P[0].v] + [0] * 11), g12.mk([P[1].v] + [0] * 11))
+
+
+def aff_linefunc(P1, P2, T):
+    """value at T of the line through P1, P2 (tangent if equal, vertical if opposite) — the textbook
+    function the Miller loops use; all three finite"""
+    x1, y1 = P1
+    x2, y2 = P2
+    xt, yt = T
+    if not (x1 == x2):
+        m = (y2 - y1) / (x2 - x1)
+        return m * (xt - x1) - (yt - y1)
+    if y1 == y2:
+        m = (x1 * x1 * 3) / (y1 * 2)
+        return m * (xt - x1) - (yt - y1)
+    return xt - x1
